@@ -23,7 +23,7 @@ type Ob struct {
 
 // NewCanon builds the canonicaliser from the Scala symbol table and the spec's definitions.
 func NewCanon(tabs *scalatab.Tables, spec *Spec) *Canon {
-	c := &Canon{Alias: map[string]string{}, Defs: map[string]bool{}}
+	c := &Canon{Alias: map[string]string{}, Defs: map[string]bool{}, infix: tabs.InfixPrec, prefix: tabs.PrefixPrec, postfix: tabs.PostfixPrec}
 	for name, reps := range tabs.SymRepr {
 		first := reps[0]
 		if name == "NegationSymbol" {
